@@ -226,9 +226,9 @@ def badRelop (v : Str) : Bool :=
 
 /-- `isLegalRelativeVersion`: `<=?|>=?|==` occurs somewhere -/
 def isExpr (v : Str) : Except Err Bool :=
-  if v.contains 60 || v.contains 62 || hasInfix [61, 61] v then pure true
-  else if badRelop v then throw .badExpr
-  else pure false
+  if v.contains 60 || v.contains 62 || hasInfix [61, 61] v then .ok true
+  else if badRelop v then .error .badExpr
+  else .ok false
 
 def isVT (e : Str) : Bool := e == kVersion || e == kVersionBang || e == kVersionExpr
 
@@ -396,42 +396,53 @@ def find (C : Ctx) (r : Req) (vro : List Str) : Except Err (Option Hit) :=
 
 /-! ## the flavor loop of `Eups.setup` (l.1872-1918) -/
 
+/-- l.1887-1889: at the top level an explicitly named version is the only acceptable answer -/
+def acceptableB (r : Req) (h : Hit) : Except Err Bool :=
+  match r.version with
+  | none => .ok true
+  | some v =>
+    if !v.isEmpty && r.depth == 0 then
+      match isExpr v with
+      | .error e => .error e
+      | .ok ex => .ok (ex || h.prod.version == v)
+    else .ok true
+
 /-- the `while not product and vro` loop for one flavor.  `none` = try the next flavor. -/
 def resolveFlavor (C : Ctx) (r : Req) (keep : Bool) : Nat → List Str → Except Err (Option Hit)
-  | 0, _ => throw .outOfFuel
+  | 0, _ => .error .outOfFuel
   | fuel + 1, vro =>
-    if vro.isEmpty then pure none
-    else do
-      let found ← find C r vro
-      -- "We couldn't find it, but maybe it's already setup"
-      let (cand, viaFind) ← (match found, r.already with
-        | some h, _ => pure (some h, true)
-        | none, some (p, _) =>
-          if !keep && some p.version != r.version then pure (none, false)
-          else pure (some ⟨p, [], []⟩, false)
-        | none, none => pure (none, false) : Except Err (Option Hit × Bool))
-      match cand with
-      | none => pure none
-      | some h =>
-        match r.version with
-        | some v =>
-          if !v.isEmpty && r.depth == 0 then do
-            if !(← isExpr v) && h.prod.version != v then
-              -- "Maybe we'll find the product again further down the VRO"
-              if !viaFind then throw .typeError
-              else if !vro.contains h.reason then throw .valueError
-              else resolveFlavor C r keep fuel (vro.drop (idxOf h.reason vro + 1))
-            else pure (some h)
-          else pure (some h)
-        | none => pure (some h)
+    if vro.isEmpty then .ok none
+    else
+      match find C r vro with
+      | .error e => .error e
+      | .ok found =>
+        -- "We couldn't find it, but maybe it's already setup"
+        let cand : Option (Hit × Bool) :=
+          match found, r.already with
+          | some h, _ => some (h, true)
+          | none, some (p, _) =>
+            if !keep && some p.version != r.version then none else some (⟨p, [], []⟩, false)
+          | none, none => none
+        match cand with
+        | none => .ok none
+        | some (h, viaFind) =>
+          match acceptableB r h with
+          | .error e => .error e
+          | .ok true => .ok (some h)
+          | .ok false =>
+            -- "Maybe we'll find the product again further down the VRO"
+            if !viaFind then .error .typeError
+            else if !vro.contains h.reason then .error .valueError
+            else resolveFlavor C r keep fuel (vro.drop (idxOf h.reason vro + 1))
 
 /-- `for fallbackFlavor in [native] + fallbacks` -/
 def resolve (C : Ctx) (r : Req) (keep : Bool) (vro : List Str) : List Str → Except Err (Option Hit)
-  | [] => pure none
-  | fl :: rest => do
-    match ← resolveFlavor C { r with flavor := fl } keep (vro.length + 1) vro with
-    | some h => pure (some h)
-    | none => resolve C r keep vro rest
+  | [] => .ok none
+  | fl :: rest =>
+    match resolveFlavor C { r with flavor := fl } keep (vro.length + 1) vro with
+    | .error e => .error e
+    | .ok (some h) => .ok (some h)
+    | .ok none => resolve C r keep vro rest
 
 /-! ## `selectVRO` -/
 
